@@ -23,7 +23,7 @@ Print Assumptions C08_names_do_not_collide.
    any header: they are the configured scheme, os.environ's SCRIPT_NAME and the decoded remainder of
    the request line's path, whatever the header block says (any position in the connection, any
    PROXY information [i] the worker attached). *)
-Theorem C08_untrusted_peer_cannot_assert : forall inet4_ok inet6_ok netloc_ok c p reqno data r rest i e,
+Theorem C08_untrusted_peer_cannot_assert : forall (inet4_ok inet6_ok : bytes -> inet_res) (netloc_ok : bytes -> bool) c p reqno data r rest i e,
   trusted_fwd c p = false -> header_map c <> Dangerous ->
   parse_request inet4_ok inet6_ok netloc_ok c p reqno data = PAccept r rest ->
   wsgi_create c (set_ppi r i) p = inr e ->
@@ -38,7 +38,7 @@ Print Assumptions C08_untrusted_peer_cannot_assert.
 (* (c) REMOTE_ADDR differs from the peer's address only if proxy_protocol is on, the peer passed the
    proxy_allow_ips gate and the connection's first line was a PROXY line that parse_proxy_protocol
    accepts - and then it is the address that line declares.  Every worker, every request position. *)
-Theorem C08_proxy_line_gate : forall inet4_ok inet6_ok netloc_ok c w p data e,
+Theorem C08_proxy_line_gate : forall (inet4_ok inet6_ok : bytes -> inet_res) (netloc_ok : bytes -> bool) c w p data e,
   In (REnv e) (conn_run inet4_ok inet6_ok netloc_ok c w p data) ->
   env_get s_REMOTE_ADDR e <> Some (peer_host p) ->
   exists i, proxy_gate inet4_ok inet6_ok c p data i /\ env_get s_REMOTE_ADDR e = Some (pp_client_addr i).
@@ -47,7 +47,7 @@ Print Assumptions C08_proxy_line_gate.
 
 (* (d) A PROXY-declared client address applies to every request of the connection: if request 1
    carried the declaration [i], every environ of the run shows its address and port. *)
-Theorem C08_proxy_addr_sticks : forall inet4_ok inet6_ok netloc_ok c w p data r rest i e,
+Theorem C08_proxy_addr_sticks : forall (inet4_ok inet6_ok : bytes -> inet_res) (netloc_ok : bytes -> bool) c w p data r rest i e,
   parse_request inet4_ok inet6_ok netloc_ok c p 1 data = PAccept r rest -> r_ppi r = Some i ->
   In (REnv e) (conn_run inet4_ok inet6_ok netloc_ok c w p data) ->
   env_get s_REMOTE_ADDR e = Some (pp_client_addr i) /\ env_get s_REMOTE_PORT e = Some (dec (pp_client_port i)).
@@ -56,15 +56,15 @@ Print Assumptions C08_proxy_addr_sticks.
 
 (* ... and the gate is sufficient as well: an accepted first request whose connection starts with a PROXY
    line that parse_proxy_protocol accepts carries exactly that declaration (so (d) applies to it) *)
-Theorem C08_proxy_line_is_applied : forall inet4_ok inet6_ok netloc_ok c p data pl rb i r rest,
+Theorem C08_proxy_line_is_applied : forall (inet4_ok inet6_ok : bytes -> inet_res) (netloc_ok : bytes -> bool) c p data pl rb i r rest,
   proxy_protocol c = true -> cut_crlf data = Some (pl, rb) -> starts_with s_PROXY pl = true ->
-  parse_proxy_line inet4_ok inet6_ok pl = Some i ->
+  parse_proxy_line inet4_ok inet6_ok pl = PLOk i ->
   parse_request inet4_ok inet6_ok netloc_ok c p 1 data = PAccept r rest -> r_ppi r = Some i.
 Proof. exact proxy_line_is_applied_proof. Qed.
 Print Assumptions C08_proxy_line_is_applied.
 
 (* the fuel of the connection loop is never exhausted: (c) and (d) speak about complete runs *)
-Theorem C08_runs_are_complete : forall inet4_ok inet6_ok netloc_ok c w p data,
+Theorem C08_runs_are_complete : forall (inet4_ok inet6_ok : bytes -> inet_res) (netloc_ok : bytes -> bool) c w p data,
   ~ In ROutOfFuel (conn_run inet4_ok inet6_ok netloc_ok c w p data).
 Proof. exact conn_run_never_out_of_fuel. Qed.
 Print Assumptions C08_runs_are_complete.
@@ -104,6 +104,7 @@ Proof. vm_compute. reflexivity. Qed.
 
 (* ---- non-vacuity and witnesses ------------------------------------------------------------------------------- *)
 Definition yes (_ : bytes) : bool := true.
+Definition ok (_ : bytes) : inet_res := IOk.
 Definition listed_peer : peer := PTuple [49;50;55;46;48;46;48;46;49] 5000.     (* 127.0.0.1 *)
 Definition stranger : peer := PTuple [56;46;56;46;56;46;56] 5002.              (* 8.8.8.8 *)
 (* "GET /x/y HTTP/1.1" CRLF "X-Forwarded-Proto: https" CRLF "SCRIPT_NAME: /x" CRLF "Script-Name: /q" CRLF CRLF *)
@@ -114,7 +115,7 @@ Definition req_spoof : bytes :=
    83;99;114;105;112;116;45;78;97;109;101;58;32;47;113;13;10;13;10].
 
 Definition env_of (c : cfg) (p : peer) (data : bytes) : option env :=
-  match conn_run yes yes yes c WSync p data with REnv e :: _ => Some e | _ => None end.
+  match conn_run ok ok yes c WSync p data with REnv e :: _ => Some e | _ => None end.
 
 (* hypotheses of (a) are satisfiable, and its exception clause is inhabited: from a trusted peer the
    listed SCRIPT_NAME and the differently spelled Script-Name share HTTP_SCRIPT_NAME *)
@@ -140,7 +141,7 @@ Proof. vm_compute. repeat split. Qed.
 (* (b) in 'dangerous' mode.  Whether wsgi.create itself checks the gate before obeying a SCRIPT_NAME
    header is probed on the tree under test (GenEnv.script_name_needs_trust).
    - where it does, SCRIPT_NAME / PATH_INFO are out of an untrusted peer's reach in EVERY mode: *)
-Theorem C08_untrusted_script_name_any_mode : forall inet4_ok inet6_ok netloc_ok c p reqno data r rest i e,
+Theorem C08_untrusted_script_name_any_mode : forall (inet4_ok inet6_ok : bytes -> inet_res) (netloc_ok : bytes -> bool) c p reqno data r rest i e,
   script_name_needs_trust = true -> trusted_fwd c p = false ->
   parse_request inet4_ok inet6_ok netloc_ok c p reqno data = PAccept r rest ->
   wsgi_create c (set_ppi r i) p = inr e ->
@@ -176,13 +177,13 @@ Definition remote_addrs (l : list robs) : list (option bytes) :=
 (* hypotheses of (c) and (d) are satisfiable: three requests on each keep-alive worker, all three see 1.2.3.4 *)
 Example proxy_address_on_all_three_requests :
   let c := with_mode default_cfg Drop true in
-  remote_addrs (conn_run yes yes yes c WThread listed_peer conn_proxy3) = [Some [49;46;50;46;51;46;52]; Some [49;46;50;46;51;46;52]; Some [49;46;50;46;51;46;52]] /\
-  remote_addrs (conn_run yes yes yes c WAsync listed_peer conn_proxy3) = [Some [49;46;50;46;51;46;52]; Some [49;46;50;46;51;46;52]; Some [49;46;50;46;51;46;52]] /\
-  remote_addrs (conn_run yes yes yes c WSync listed_peer conn_proxy3) = [Some [49;46;50;46;51;46;52]].
+  remote_addrs (conn_run ok ok yes c WThread listed_peer conn_proxy3) = [Some [49;46;50;46;51;46;52]; Some [49;46;50;46;51;46;52]; Some [49;46;50;46;51;46;52]] /\
+  remote_addrs (conn_run ok ok yes c WAsync listed_peer conn_proxy3) = [Some [49;46;50;46;51;46;52]; Some [49;46;50;46;51;46;52]; Some [49;46;50;46;51;46;52]] /\
+  remote_addrs (conn_run ok ok yes c WSync listed_peer conn_proxy3) = [Some [49;46;50;46;51;46;52]].
 Proof. vm_compute. repeat split. Qed.
 
 (* and the gate is real: a stranger's PROXY line gets 403, with proxy_protocol off it is a bad request *)
 Example proxy_line_from_stranger_is_refused :
-  conn_run yes yes yes (with_mode default_cfg Drop true) WThread stranger conn_proxy3 = [RErr 403] /\
-  conn_run yes yes yes (with_mode default_cfg Drop false) WThread listed_peer conn_proxy3 = [RErr 400].
+  conn_run ok ok yes (with_mode default_cfg Drop true) WThread stranger conn_proxy3 = [RErr 403] /\
+  conn_run ok ok yes (with_mode default_cfg Drop false) WThread listed_peer conn_proxy3 = [RErr 400].
 Proof. vm_compute. split; reflexivity. Qed.
